@@ -62,6 +62,9 @@ CLAIMED = {
     'C05': ('exploration', 'reference-model monitor: event traces of producers/consumers and per-operation results of next/send interleavings vs CPython',
             'Cross product of 37 consumers x 10 producer kinds x fault kind/position, and all next/send sequences of bounded length over pairs/triples of live generators (try/finally, loops, yield from with values).',
             'Generator bodies never leak StopIteration (PEP 479); throw/close not covered.', '6/C05'),
+    'C06': ('exploration', 'reference-model monitor: ast.Dump of the real parser vs the generator-known tree (built first, rendered with seeded spelling variation) cross-checked with CPython ast converted to the 3.4 shape; literal values by evaluation; rejection of by-construction invalid texts and single-token mutations',
+            'Seeded random trees over the 3.4 expression/statement grammar in exec/eval/single modes with redundant parentheses, spacing, comments, continuation lines, indentation variants, semicolons, trailing commas and string/number spellings; ~500+ literal spellings compared by value; 13 classes of invalid text plus mutations that CPython rejects.',
+            'Two oracles must agree (generator tree and converted CPython tree) for a case to be judged; texts bounded by the generator depth; encodings/BOM/form feed not covered.', '6/C06'),
 }
 
 PENDING_REASON = 'check not built yet in this round (the design in DESIGN.md applies; nothing is claimed until the monitor exists and is silent on the unchanged tree)'
